@@ -19,6 +19,7 @@ import Driver.OpsApi
 import Driver.OpsGlue
 import Driver.OpsServe
 import Driver.OpsLegal
+import Driver.OpsCmd
 namespace Driver
 
 def handlers : List Handler := [
@@ -42,6 +43,7 @@ def handlers : List Handler := [
   handleApi,
   handleGlue,
   handleLegal,
+  handleCmd,
 ]
 
 def step (st : St) (line : String) : St × String :=
